@@ -28,6 +28,8 @@ def grammar_snapshot(g, names):
     def nm(t):
         return names.get(t, repr(t))
 
+    # read before anything that could write (get_weights() is itself code under test)
+    gengy = {nm(c): dict(c.__dict__.get("__gengy__", {})) for c in names}
     snap = {
         "alternatives": {nm(k): [nm(x) for x in v] for k, v in g.alternatives.items()},
         "distanceToTerminal": {nm(k): v for k, v in g.distanceToTerminal.items()},
@@ -36,7 +38,7 @@ def grammar_snapshot(g, names):
         "terminals": sorted(nm(x) for x in g.terminals),
         "non_terminals": sorted(nm(x) for x in g.non_terminals),
         "weights": {nm(k): v for k, v in g.get_weights().items()},
-        "gengy": {nm(c): dict(c.__dict__.get("__gengy__", {})) for c in names},
+        "gengy": gengy,
         "abstract_dist_to_t": {nm(k): {nm(k2): v2 for k2, v2 in v.items() if v2 < 1000000} for k, v in list(g.abstract_dist_to_t.items())},
         "starting_symbol": nm(g.starting_symbol),
         "considered": [nm(x) for x in g.considered_subtypes],
